@@ -37,6 +37,8 @@ pub enum Attack {
     AbsurdLen(bool, String, bool),
     /// integer edge shapes (D4 family)
     IntEdge(u8),
+    /// connect and abort at once with RST (SO_LINGER 0), possibly before the server accepts
+    Reset,
 }
 
 #[derive(Clone, Debug, Serialize, Deserialize)]
@@ -77,6 +79,7 @@ fn attack_strategy(tier: Tier) -> BoxedStrategy<Attack> {
                 "[1-9][0-9]{8,22}"
             ], any::<bool>()).prop_map(|(b, d, c)| Attack::AbsurdLen(b, d, c)),
         2 => (0u8..8).prop_map(Attack::IntEdge),
+        1 => Just(Attack::Reset),
     ]
     .boxed()
 }
@@ -284,6 +287,7 @@ fn attack_bytes(a: &Attack, ncontrols: usize) -> (Vec<u8>, bool, &'static str) {
             };
             (b.to_vec(), false, "integer-edge")
         }
+        Attack::Reset => (Vec::new(), true, "abortive-connect"),
     }
 }
 
@@ -381,6 +385,13 @@ fn exec(c: &HostileCase, env: &Env) -> Outcome {
         for a in &h.attacks {
             let (bytes, close_after, cat) = attack_bytes(a, ncontrols);
             out.label(format!("attack:{}", cat));
+            if cat == "abortive-connect" {
+                // a second connection that is reset right after the handshake
+                if let Ok(x) = RawClient::connect(&addr) {
+                    x.abort();
+                }
+                continue;
+            }
             // large streams are sent in chunks; a send error means the server already closed
             for chunk in bytes.chunks(1 << 16) {
                 if cl.send(chunk).is_err() {
